@@ -24,11 +24,17 @@ type WSFile struct {
 
 type Workspace struct {
 	Files []WSFile `json:"files"`
+	// Late: when k > 0, file k-1 does not exist when the server starts; it is created on disk and
+	// announced with a Created watched-file event before the documents are opened
+	Late int `json:"late,omitempty"`
 }
 
 func (w *Workspace) protoFiles() []proto.File {
 	var fs []proto.File
-	for _, f := range w.Files {
+	for i, f := range w.Files {
+		if w.Late == i+1 && len(w.Files) > 1 {
+			continue
+		}
 		fs = append(fs, proto.File{Path: f.Path, Data: []byte(f.Text)})
 	}
 	return fs
@@ -82,6 +88,9 @@ func genWorkspace(t *rapid.T, o semGenOpts) Workspace {
 		toks := luagen.Program(t, cfg)
 		src, _ := luagen.RenderSimple(toks)
 		ws.Files = append(ws.Files, WSFile{Path: wsFileNames[i], Text: src})
+	}
+	if n > 1 && rapid.IntRange(0, 3).Draw(t, "lateFile") == 0 {
+		ws.Late = 1 + rapid.IntRange(0, n-1).Draw(t, "lateIdx")
 	}
 	return ws
 }
@@ -210,6 +219,10 @@ func dcName(n string) bool {
 // openAll returns didOpen steps for every file (a client has the files open when it queries them).
 func (w *Workspace) openAll() []proto.Step {
 	var st []proto.Step
+	if w.Late > 0 && w.Late <= len(w.Files) && len(w.Files) > 1 {
+		f := w.Files[w.Late-1]
+		st = append(st, proto.Step{Op: "write", Path: f.Path, Data: []byte(f.Text)}, harness.Watched([2]interface{}{f.Path, 1}))
+	}
 	for _, f := range w.Files {
 		st = append(st, harness.DidOpen(f.Path, f.Text))
 	}
@@ -218,7 +231,11 @@ func (w *Workspace) openAll() []proto.Step {
 
 func showWS(w *Workspace) string {
 	var b strings.Builder
-	for _, f := range w.Files {
+	for i, f := range w.Files {
+		if w.Late == i+1 {
+			fmt.Fprintf(&b, "--- %s (created after the server started)\n%s", f.Path, f.Text)
+			continue
+		}
 		fmt.Fprintf(&b, "--- %s\n%s", f.Path, f.Text)
 	}
 	return b.String()
